@@ -152,3 +152,7 @@ func Dump(x any)                 { fmt.Printf("vf.Dump: %v\n", x) }
 func SymbolicTime() {}
 
 func TLSModel(handshakeOK bool, negotiatedProtocol string) {}
+
+func TLSDialTarget(conn any) {}
+
+func FixedSchedule(on bool) {}
